@@ -264,7 +264,7 @@ def judge(ctx, cases, traces, label, count=True, drift=True):
         what = "%s sorter, %d regions: %s (outcome %s); input ids %s, returned ids %s" % (
             tr["sorter"], len(tr["inp"]), CLAUSES.get(prog, "clause %d" % prog), tr["outcome"],
             [r["id"] for r in tr["inp"]], [r["id"] for r in tr["out"]])
-        ctx.violation({"case": cases[i], "progress": prog}, signature(tr, prog), what)
+        _PENDING.append(({"case": cases[i], "progress": prog}, signature(tr, prog), what))
     if drift:
         keep = [i for i in range(len(traces)) if i not in rejected and traces[i]["lattice"] and not traces[i]["deskew"]]
         if keep:
@@ -282,6 +282,23 @@ def judge(ctx, cases, traces, label, count=True, drift=True):
                     tr["sorter"], "SmartOrder" if tr["sorter"] == "smart" else "NaiveOrder"), 1,
                     {"boxes": tr["boxes"], "order": [r["id"] for r in tr["out"]]})
     return acc, rej
+
+
+_PENDING = []
+
+
+def flush(ctx):
+    """report the rejected executions: one of every signature first (replay files are kept for the first 50 only)"""
+    seen, first, rest = set(), [], []
+    for v in _PENDING:
+        (rest if v[1] in seen else first).append(v)
+        seen.add(v[1])
+    for case, sig, what in first + rest:
+        ctx.violation(case, sig, what)
+    tally = ctx.notes.setdefault("rejected_by_signature", {})
+    for _, sig, _ in _PENDING:
+        tally[sig] = tally.get(sig, 0) + 1
+    del _PENDING[:]
 
 
 def _mc_inputs(pages):
@@ -305,7 +322,7 @@ def run(ctx):
                "geometry compared on a 1e-6 px grid (measured round-off of the de-skew rotation < 1e-11 px)")
 
     # ---- 1. design
-    lattices = [(2, 4), (3, 2)] if quick else [(2, 4), (3, 3)]
+    lattices = [(2, 3), (3, 2)] if quick else [(2, 4), (3, 3)]
     for g, maxn in lattices:
         ctx.tlc("RegionSort", constants=design_constants(g, maxn), invariants=INVS, properties=["Termination"], spec="Spec",
                 workers=4 if quick else 6, timeout=3000, label="RegionSort G=%d MaxN=%d safety+liveness" % (g, maxn))
@@ -353,9 +370,10 @@ def run(ctx):
     g, maxn = (4, 5)
     bs = lattice_boxes(g)
     pages = [[ctx.rng.choice(bs) for _ in range(ctx.rng.choice([3, 4, 4, 5, 5]))] for _ in range(nsamp)]
+    pages += [[], [bs[5]]]      # short pages too, so that every action of the machine is taken in this configuration as well
     consts = design_constants(g, maxn, inputs="<- SampledInputs")
     ctx.tlc("MC_RegionSort", constants=consts, invariants=INVS, properties=["Termination"], spec="Spec", workers=4,
-            timeout=3000, files={"MC_RegionSort.tla": _mc_inputs(pages)}, label="RegionSort %d sampled pages G=4 n=3..5" % nsamp)
+            timeout=3000, files={"MC_RegionSort.tla": _mc_inputs(pages)}, label="RegionSort %d sampled pages G=4 n=3..5" % len(pages))
     cases = [lattice_case(p, s, idx) for idx, p in enumerate(pages) for s in ("smart", "naive")]
     traces = pmap(run_case, cases, procs=PROCS)
     judge(ctx, cases, traces, "sampled G=4 n=3..5")
@@ -370,6 +388,7 @@ def run(ctx):
     judge(ctx, cases, traces, "free-form pages", drift=False)
     ctx.notes["deskewed_pages_executed"] = sum(1 for t in traces if t["deskew"])
 
+    flush(ctx)
     ctx.notes["explanation"] = (
         "TLC exhaustive on RegionSort (explicit-stack machine of divide_and_order/decouple + naive DBSCAN loop) per lattice: "
         "invariants %s and liveness Termination; every page of the same lattices, sampled 4x4-lattice pages (also explored by TLC "
@@ -382,3 +401,4 @@ def replay(ctx, rec):
     case = rec["case"]
     traces = [run_case(case)]
     judge(ctx, [case], traces, "replay", drift=False)
+    flush(ctx)
